@@ -70,8 +70,29 @@ def variant_subpatterns(p, adt_suffix, variant):
             yield from variant_subpatterns(q, adt_suffix, variant)
 
 
-def slot_bindings(F, fn, adt_suffix, variant, field, closures=True):
-    """[(local id, name, scrutinee node, owner)] bindings of the given field slot"""
+def slot_bindings(F, fn, adt_suffix, variant, field, closures=True, follow=True):
+    """[(local id, name, scrutinee node, owner)] bindings of the given field slot; with
+    follow=True also locals bound by destructuring such a binding (`if let Some(t) = return_`)"""
+    out = _slot_bindings(F, fn, adt_suffix, variant, field, closures)
+    if follow:
+        ids = {b[0] for b in out}
+        changed = True
+        while changed:
+            changed = False
+            for pat, scrut, owner in fn_patterns(F, fn, closures):
+                if scrut is None:
+                    continue
+                sid = T.root_var_id(scrut)
+                if sid in ids:
+                    for (i, n, _pth) in T.pat_bindings(pat):
+                        if i not in ids:
+                            ids.add(i)
+                            out.append((i, n, scrut, owner))
+                            changed = True
+    return out
+
+
+def _slot_bindings(F, fn, adt_suffix, variant, field, closures=True):
     out = []
     for pat, scrut, owner in fn_patterns(F, fn, closures):
         for vp in variant_subpatterns(pat, adt_suffix, variant):
